@@ -20,6 +20,7 @@ import (
 	"sort"
 	"strings"
 	"sync"
+	"sync/atomic"
 	"testing"
 	"time"
 
@@ -465,9 +466,17 @@ func runOne(t *testing.T, tr *drv.Tracer, o *observer, sid int, sched []drv.Step
 	ctx, cancel := context.WithCancel(context.Background())
 	done := make(chan struct{})
 
+	var crashed atomic.Value // the text of a panic inside Tracker.Run (analysis and reporting run on that goroutine)
+
 	go func() {
+		defer close(done)
+		defer func() {
+			if r := recover(); r != nil {
+				crashed.Store(fmt.Sprint(r))
+			}
+		}()
+
 		_ = trk.Run(ctx)
-		close(done)
 	}()
 
 	defer func() {
@@ -541,6 +550,11 @@ func runOne(t *testing.T, tr *drv.Tracer, o *observer, sid int, sched []drv.Step
 			tr.Emit(drv.Step{"ev": "Delete", "d": st["d"], "fired": fired, "obs": o.observe(t)})
 		default:
 			t.Fatalf("unknown step %v", st)
+		}
+
+		if msg := crashed.Load(); msg != nil { // no spec step matches a Panic event
+			tr.Emit(drv.Step{"ev": "Panic", "msg": msg})
+			return false
 		}
 
 		if !ok {
